@@ -209,6 +209,16 @@ func (l *c08Probe) probe() *hermes.VerifProbe {
 				l.c.NonTrivial(h.Sum())
 			}
 		},
+		BeforeNitro: func(g *hermes.GlobalVarsMain, zeit, subd int) {
+			// the season totals that the harvest writes into the crop record: transpiration <= actual ET <= potential ET
+			if subd == 1 && g.AKF.Index > 0 && zeit == g.ERNTE[g.AKF.Index] && g.SAAT[g.AKF.Index] > 0 {
+				l.c.Eval(2)
+				l.c.Count("harvests_with_season_totals", 1)
+				if !(g.TRAG <= g.ETAG+1e-9) || !(g.ETAG <= g.ETC0+1e-9) || !finite(g.ETAG) || !finite(g.ETC0) {
+					l.c.Violate("season totals of the crop record out of order", fmt.Sprintf("%s day %d (harvest of crop %d): transpiration %.6g, actual ET %.6g, potential ET %.6g cm since sowing", l.label, zeit, g.AKF.Index, g.TRAG, g.ETAG, g.ETC0), nil)
+				}
+			}
+		},
 		SubStep: func(g *hermes.GlobalVarsMain, zeit, subd int, steps, wdt float64, w *hermes.WaterSharedVars, n *hermes.NitroSharedVars) {
 			l.sumWdt += wdt
 			if subd != 1 {
